@@ -17,9 +17,9 @@ def check(ctx):
                       "random_state.rand(len(p)) from check_random_state(random_state); no other randomness source")
     ctx.rule("R10.3", "in the regression branch the value vector and the probability vector handed to random_state.choice "
                       "are ordered by the same index")
-    r101(ctx)
-    r102(ctx)
-    r103(ctx)
+    ctx.guard(r101, ctx)
+    ctx.guard(r102, ctx)
+    ctx.guard(r103, ctx)
 
 
 def _is_complement_pair(A, t: T):
